@@ -120,8 +120,9 @@ func (s *sharedEntryAttributes) toXmlInternal(parent *etree.Element, onlyNewOrUp
 				}
 			}
 			return overallDoAdd, nil
-		case s.shouldDelete():
-			// s is meant to be removed
+		case s.shouldDelete() && s.parent != nil:
+			// s is meant to be removed (the root has no element of its own: when everything goes, its children
+			// carry the delete operations)
 			// if delete, create the element as child of parent
 			newElem := parent.CreateElement(s.pathElemName)
 			// add namespace if we create doc with namespace and the actual namespace differs from the parent namespace
